@@ -408,6 +408,10 @@ def select(prop, thorough, rng):
             t1 = cs(('a', 'b'), ('d', 'e'), ('g', 'h'), ('j', 'k'), ('m', 'n'), ('p', 'q'), ('s', 't'), ('v', 'w'), ('y', 'z'), ('0', '1'), ('3', '4'))
             t2 = cs(('A', 'B'), ('D', 'E'), ('G', 'H'), ('J', 'K'), ('M', 'N'), ('P', 'Q'), ('S', 'T'), ('V', 'W'), ('Y', 'Z'), ('5', '6'), ('8', '9'), 'c')
             defs.append(Def('cl_tables', [('Init', [Rule(plus(t1), 'tok'), Rule(plus(t2), 'tok'), Rule(ANY, 'tok')])], tags=[prop], nmax=2))
+            # lexemes of several arbitrary characters in one call: state hidden behind the per-character bookkeeping
+            # (locations, widths) would be shared by clones
+            defs.append(Def('cl_any3', [('Init', [Rule(cat(ANY, ANY, ANY), 'tok'), Rule(ANY, 'tok')])], tags=[prop]))
+            defs.append(Def('cl_word', [('Init', [Rule(plus(diff(ANY, ch(' '))), 'tok'), Rule(ch(' '), 'skip')])], tags=[prop]))
             defs.append(Def('cl_tables2', [('Init', [Rule(cat(t2, star(t1)), 'ret'), Rule(plus(t1), 'tok'), Rule(ch(' '), 'skip')])], tags=[prop], nmax=2))
     else:
         raise ValueError(prop)
